@@ -330,10 +330,10 @@ func (E *Engine) callWrites(fn *ssa.Function, cc *ssa.CallCommon, site ssa.Instr
 			return
 		}
 		full := cc.Value.Type().String() + "." + cc.Method.Name()
-		if E.isNoEffect(full, cc.Method.Pkg()) {
+		if E.isNoEffect(full, cc.Method.Pkg()) || E.P.pureMethods[full] {
 			return
 		}
-		if h := E.ifaceContract(cc); h != nil && h.Writes != nil {
+		if h := E.ifaceContract(cc); h != nil {
 			for _, k := range h.Writes {
 				w.key(k).any = true
 			}
@@ -405,13 +405,16 @@ func (E *Engine) fnWrites(fn *ssa.Function, actuals []ssa.Value, bindings []ssa.
 		if E.isNoEffect(name, pkg) {
 			return
 		}
-		if isGetter(fn) {
+		if isGetter(fn) || isStringer(fn) {
 			return
 		}
 		if h := E.P.contracts[org]; h != nil {
 			return // external with a (trusted) contract: writes nothing unless the contract says so
 		}
 		w.all = true
+		return
+	}
+	if h := E.P.contracts[org]; h != nil && h.WritesNothing {
 		return
 	}
 	cw := E.writes(body, env)
@@ -442,11 +445,29 @@ func (E *Engine) fnWrites(fn *ssa.Function, actuals []ssa.Value, bindings []ssa.
 				}
 			case *ssa.Global:
 				kw.bases[bb] = true
+			case *ssa.FreeVar:
+				// a captured variable: the cell the closure was bound to at the call site
+				idx := -1
+				for i, fv := range body.FreeVars {
+					if fv == bb {
+						idx = i
+					}
+				}
+				if idx >= 0 && idx < len(bindings) {
+					kw.bases[bindings[idx]] = true
+				} else {
+					kw.any = true
+				}
 			default:
 				kw.any = true
 			}
 		}
 	}
+}
+
+func isStringer(fn *ssa.Function) bool {
+	n := fn.Name()
+	return (n == "String" || n == "Error" || n == "GoString") && fn.Signature.Recv() != nil && fn.Signature.Params().Len() == 0 && fn.Signature.Results().Len() == 1
 }
 
 func isGetter(fn *ssa.Function) bool {
